@@ -229,9 +229,11 @@ class State(object):
         self.facts = set()
         self.constraints = []
         self.dead = False
+        self.modenvs = {}
 
     def copy(self):
         s = State(self.space)
+        s.modenvs = dict(self.modenvs)
         s.heap = dict((i, o.copy()) for i, o in self.heap.items())
         s.pc = list(self.pc)
         s.dom = dict(self.dom)
